@@ -548,6 +548,19 @@ C06_Rate(s, e, t) ==
     IN /\ rel = RateDue(s, t, p, d)
        /\ (RateDue(s, t, p, d) # 0) => t.pools[p].lastH <= s.pools[p].end
 
+(* C06: "released for a span of blocks = reward-per-block times the span while
+   someone is staked" is normative, not only an upper bound: whenever a pool is
+   touched while it is running - a successful stake, unstake, harvest, adjust or
+   destroy, or its end-block refund - the accrual up to the current height has
+   happened (lastH = h), so nothing owed for the span is withheld. *)
+C06_TouchAccrues(s, e, t) ==
+  /\ (e.ok /\ e.name \in FarmerOps \cup {"AdjustPool", "DestroyPool"}
+        /\ e.pool \in DOMAIN s.pools /\ ~Expired(s, e.pool))
+       => t.pools[e.pool].lastH = s.h
+  /\ (e.name = "EndBlock") =>
+       \A p \in DOMAIN s.pools :
+         (<<s.h, p>> \in s.queue /\ s.pools[p].end = s.h) => t.pools[p].lastH = s.h
+
 (* C06: refund exactly once, only at end or destroy, everything that remains *)
 C06_RefundOnce(s, e, t, g) ==
   /\ \A p \in DOMAIN t.pools : g.refunds[p] <= 1
@@ -744,6 +757,7 @@ Act_Rejected_NoEffect == [][Rejected_NoEffect(st, ev', st')]_vars
 Act_C06_Flows == [][C06_Flows(st, ev', st')]_vars
 Act_C06_AdjustApplies == [][C06_AdjustApplies(st, ev', st')]_vars
 Act_C06_Rate == [][C06_Rate(st, ev', st')]_vars
+Act_C06_TouchAccrues == [][C06_TouchAccrues(st, ev', st')]_vars
 Act_C06_RefundOnce == [][C06_RefundOnce(st, ev', st', gh')]_vars
 Act_C13_OnceOnTime == [][C13_OnceOnTime(st, ev', st', gh')]_vars
 
